@@ -706,4 +706,67 @@ def r8_key_identity(a, tier):
     return rep
 
 
-RULES = [r1_key_derivation, r2_ownership, r3_observer_purity, r4_flag_confinement, r5_settings_gate_only_the_store, r_replay, r7_failure_memo, r8_key_identity]
+def seeds_never_evicted(a, rule_id):
+    rep = RuleReport(
+        rule_id,
+        'the store of left-recursion seeds and guards (_results) never forgets: unlike the memo cache, whose entries may be dropped at '
+        'any time (a miss only costs a re-evaluation), an entry of _results is the guard or the growing seed of a rule that is still '
+        'ACTIVE - dropping it lets the rule re-enter itself without bound. Every object bound to `self._results` is a plain dict, or an '
+        'instance of a class whose __setitem__ (and the helpers it calls) never removes entries',
+        floor=1,
+    )
+    n = 0
+    for f in a.p.functions.values():
+        if not f.module.name.startswith('tatsu.contexts.'):
+            continue
+        for st in walk_no_defs(f.node):
+            tgts = st.targets if isinstance(st, ast.Assign) else [st.target] if isinstance(st, ast.AnnAssign) and st.value is not None else []
+            if not any(norm(t) == 'self._results' for t in tgts):
+                continue
+            n += 1
+            v = st.value
+            if isinstance(v, ast.Name):
+                from ..rules.common import through_locals
+                v = through_locals(f, v)
+            kind, evicts = 'unknown', None
+            if isinstance(v, (ast.Dict, ast.DictComp)) or (isinstance(v, ast.Call) and dotted(v.func) in ('dict', 'defaultdict', 'collections.defaultdict', 'OrderedDict')):
+                kind, evicts = 'plain dict', False
+            elif isinstance(v, ast.Call):
+                q = a.p.resolve_expr(f.module, v.func)
+                ci = a.p.classes.get(q)
+                if ci is not None:
+                    kind = q
+                    removers = []
+                    todo, seen = [m for c in a.ct.mro(q) if c in a.p.classes for n_, m in a.p.classes[c].methods.items() if n_ in ('__setitem__', 'update', 'setdefault')], set()
+                    while todo:
+                        m = todo.pop()
+                        if m.qualname in seen:
+                            continue
+                        seen.add(m.qualname)
+                        for x in walk_no_defs(m.node):
+                            if isinstance(x, ast.Delete) or (isinstance(x, ast.Call) and isinstance(x.func, ast.Attribute) and x.func.attr in ('pop', 'popitem', 'clear')):
+                                removers.append(f'{m.qualname}:{x.lineno}')
+                            if isinstance(x, ast.Call) and isinstance(x.func, ast.Attribute) and isinstance(x.func.value, ast.Name) and x.func.value.id == 'self':
+                                h = a.ct.lookup(q, x.func.attr)
+                                if h is not None:
+                                    todo.append(h)
+                    evicts = bool(removers)
+                    kind += f' (removes entries at {removers[:2]})' if removers else ' (never removes entries)'
+            rep.add({'fn': f.qualname, 'binds_results_to': norm(st.value)[:60], 'container': kind, 'can_evict': evicts})
+            if evicts is None:
+                raise AnalysisError(f'{rule_id}: cannot tell what {f.qualname} binds to self._results: `{norm(st.value)[:60]}`')
+            if evicts:
+                rep.fail(f.qualname, 'results-evicting', f'`{norm(st)[:80]}` makes the store of left-recursion seeds and guards a container that drops entries ({kind}): the guard of '
+                         f'a still-active left-recursive rule can be evicted, the rule is then entered again as if new and recurses without bound '
+                         f'(RecursionError for small memo capacities)', f'{f.module.relpath}:{st.lineno}')
+    if not n:
+        raise AnalysisError(f'{rule_id}: no assignment to self._results found (anchor moved)')
+    return rep
+
+
+def r9_seeds_never_evicted(a, tier):
+    return seeds_never_evicted(a, 'C04.R9')
+
+
+RULES = [r1_key_derivation, r2_ownership, r3_observer_purity, r4_flag_confinement, r5_settings_gate_only_the_store, r_replay, r7_failure_memo, r8_key_identity,
+         r9_seeds_never_evicted]
